@@ -627,7 +627,7 @@ class Target:
             return mr_reply(svc, 0, (), out)
         start, ln = u32(data, 0), u16(data, 4)
         room = cap - 4
-        if self.caps:
+        if self.caps and not self.cfg.get("caps_tags_only"):
             room = max(1, min(room, self.caps.pop(0)))
             self.choice.setdefault("caps", []).append(room)
         want = blob[start:start + ln]
